@@ -3,6 +3,7 @@ SPECIFICATION TraceSpec
 CONSTANTS
   NK = 3
   NST = 3
+  NL = 3
   NSU = 2
   EmptyKey = 2
   MaxConn = 10
